@@ -188,6 +188,7 @@ class ExprMixin:
             if a.atoms == b.atoms: return a
             return VStr([('ite', c, a, b)])
         if isinstance(a, VText) and isinstance(b, VText): return VText(z3.If(c, a.t, b.t))
+        if isinstance(a, VClosedToks) or isinstance(b, VClosedToks): raise Undecided('merge of a closed token line')
         if isinstance(a, VList) and isinstance(b, VList) and a.kind == b.kind:
             # one ite on the list value (not on length and array separately): list equalities then split on c only
             L = list_sort(a.kind); t = z3.If(c, a.term(), b.term())
